@@ -113,7 +113,7 @@ func (v *objectValidator) feedObjectValueBegin() ([]validator, bool) {
 	}
 
 	// child node not found on schema object
-	if c := v.node_.Constraint(constraint.RequiredKeysConstraintType); c != nil {
+	{
 		key, ok := v.validateTypeRules(v.lastFoundKeyLex.Value())
 		if ok {
 			child, ok := objectNode.ChildByRawKey([]byte(key))
@@ -143,7 +143,17 @@ func (v objectValidator) requiredKeysString() string {
 
 // validate with rules
 func (v objectValidator) validateTypeRules(value jbytes.Bytes) (string, bool) {
-	for key := range v.requiredKeys {
+	objectNode, ok := v.node_.(*schema.ObjectNode)
+	if !ok {
+		return "", false
+	}
+	// Try the key shortcuts of the object in declaration order, whether they
+	// are required or optional.
+	for _, k := range objectNode.Keys().Data {
+		if !k.IsShortcut {
+			continue
+		}
+		key := k.Key
 		typ, ok := v.rootSchema.TypesList()[key]
 		if !ok {
 			continue
